@@ -39,6 +39,19 @@ PtU == {<<"Pt", "3", "User">>, <<"Pt", "3", "World">>}
 MatRawT == {<<"MatRaw", n, d>> : n \in {"2", "3", "4"}, d \in {"2", "3"}}
 Num(x) == CASE x = "2" -> 2 [] x = "3" -> 3 [] OTHER -> 4
 
+\* the library's named maps (render.rs): each is a spelling of one tagged matrix type
+AliasB == {"Model", "World", "View"}
+Aliases == {"ModelToWorld", "WorldToView", "ModelToView", "ModelToProj", "ViewToProj"}
+Denotes(n) == CASE n = "ModelToWorld" -> <<"Mat4", "Model", "World">>
+                [] n = "WorldToView" -> <<"Mat4", "World", "View">>
+                [] n = "ModelToView" -> <<"Mat4", "Model", "View">>
+                [] n = "ModelToProj" -> <<"MatP", "Model">>
+                [] OTHER -> <<"MatP", "View">>
+AliasT == {<<"Alias", n>> : n \in Aliases}
+MatV == {<<"Mat4", s, d>> : s \in AliasB, d \in AliasB} \cup {<<"MatP", s>> : s \in AliasB}
+PtV == {<<"Pt", "3", b>> : b \in AliasB}
+Res(t) == IF t[1] = "Alias" THEN Denotes(t[2]) ELSE t
+
 Kind(t) == t[1]
 P3 == {t \in PtT : t[2] = "3"}
 V3 == {t \in VecT : t[2] = "3"}
@@ -90,14 +103,25 @@ Programs ==
   \cup {<<"ApplyRes", <<m, x, r>>>> : m \in Mat3T, x \in V2, r \in V2}
   \cup {<<"ComposeRes", <<m, n, r>>>> : m \in MW4, n \in MW4, r \in MW4}
   \cup {<<"SubRes", <<a, b, r>>>> : a \in P3, b \in P3, r \in V3 \cup P3}
+  \* the named maps: what each one is, composed, applied, and handed to a camera as its view transform
+  \* (directly: only a world-to-view map will do; through the explicit, unchecked conversion to(): anything)
+  \cup {<<"AliasIs", <<a, t>>>> : a \in AliasT, t \in MatV}
+  \cup {<<"ThenA", <<a, b>>>> : a \in AliasT \cup MatV, b \in AliasT}
+  \cup {<<op, <<a, p>>>> : op \in {"Apply", "ApplyPt"}, a \in AliasT \cup MatV, p \in PtV}
+  \cup {<<"CamMode", <<m>>>> : m \in AliasT \cup MatV}
+  \cup {<<"CamModeTo", <<m>>>> : m \in AliasT \cup MatV}
   \* render(): the vertex shader must output clip-space (projective) positions
   \cup {<<"Render", <<o>>>> : o \in {<<"ProjVec4">>, <<"Vec", "3", "Model">>, <<"Pt", "3", "Model">>}}
 
 SameTags(a, b) == a = b
 
 WellTyped(pr) ==
-  LET op == pr[1]  a == pr[2][1]  b == IF Len(pr[2]) >= 2 THEN pr[2][2] ELSE <<"none">> IN
-  CASE op \in {"Add", "Sub"} /\ Kind(a) = "Vec" /\ Kind(b) = "Vec" -> a = b
+  LET op == pr[1]  a == Res(pr[2][1])  b == IF Len(pr[2]) >= 2 THEN Res(pr[2][2]) ELSE <<"none">> IN
+  CASE op = "AliasIs" -> a = b
+    [] op = "ThenA" -> Kind(a) = "Mat4" /\ a[3] = b[2]
+    [] op = "CamMode" -> a = <<"Mat4", "World", "View">>
+    [] op = "CamModeTo" -> TRUE
+    [] op \in {"Add", "Sub"} /\ Kind(a) = "Vec" /\ Kind(b) = "Vec" -> a = b
     [] op = "Dot" -> a = b
     [] op = "Lerp" -> a = b                                             \* same kind, dimension, tag (or colour space)
     [] op = "Add" /\ Kind(a) = "Pt" /\ Kind(b) = "Vec" -> a[2] = b[2] /\ a[3] = b[3]   \* point + displacement
@@ -142,7 +166,9 @@ Class(pr) ==
   ELSE IF op = "Add" /\ Kind(a) = "Pt" /\ Kind(b) = "Pt" THEN "add-points"
   ELSE IF op \in {"Add", "Sub", "Lerp", "Dot", "AffAdd", "AffSub"} /\ Kind(a) \in {"Vec", "Pt", "Col"} /\ Kind(b) = Kind(a) /\ a[2] # b[2] THEN "mixed-dimension-or-repr"
   ELSE IF op \in {"Add", "Sub", "Lerp", "Dot", "AffAdd", "AffSub"} /\ Kind(a) \in {"Vec", "Pt", "Col"} THEN "mixed-space"
-  ELSE IF op \in {"Apply", "ApplyPt"} /\ Kind(a) = "MatP" THEN "projective-as-affine"
+  ELSE IF op \in {"AliasIs", "CamMode"} THEN "mixed-space"
+  ELSE IF op = "ThenA" THEN "compose-mismatch"
+  ELSE IF op \in {"Apply", "ApplyPt"} /\ Kind(Res(a)) = "MatP" THEN "projective-as-affine"
   ELSE IF op \in {"Apply", "ApplyPt", "ApplyRes", "ApplyPtRes"} THEN "apply-outside-source"
   ELSE IF op \in {"SubThenAdd", "SubRes"} THEN "mixed-space"
   ELSE IF op = "ComposeRes" THEN "compose-mismatch"
